@@ -155,7 +155,34 @@ def _run_job(args):
     return res
 
 
+def replay_request():
+    """(path, stored violation) when the check was started with --replay <path>"""
+    path = os.environ.get("VERIF_REPLAY")
+    if not path:
+        return None
+    try:
+        return path, json.load(open(path))
+    except Exception as e:  # pragma: no cover
+        print(f"HARNESS-ERROR cannot read replay file {path}: {e}")
+        sys.exit(EXIT_HARNESS)
+
+
+def _untuple(x):
+    """JSON turned tuples into lists; job configurations use tuples"""
+    if isinstance(x, list):
+        return tuple(_untuple(v) for v in x)
+    if isinstance(x, dict):
+        return {k: _untuple(v) for k, v in x.items()}
+    return x
+
+
 def run_jobs(fn, configs, procs=None):
+    rq = replay_request()
+    if rq is not None:
+        # --replay: only the job of the stored violation is run again (on the current /repo), whatever the tier's configuration list
+        stored = rq[1].get("config")
+        match = [c for c in configs if jsonable(c) == stored]
+        configs = match[:1] or [_untuple(stored)]
     procs = procs or min(16, max(1, len(configs)))
     if procs == 1 or os.environ.get("VERIF_SERIAL"):
         return [_run_job((fn, c)) for c in configs]
@@ -223,6 +250,26 @@ def finish(pid, results, *, explanation, bound, symbolic, assumptions, source_fi
         notes += r.notes
         if r.obligations > 0 and r.symbols > 0:
             nontrivial += 1
+
+    rq = replay_request()
+    if rq is not None:
+        # replay mode: report whether the stored violation reproduces; the evidence file and the replay directory are left untouched
+        path, stored = rq
+        again = [v for v in violations if v["key"] == stored.get("key")]
+        for x in herr[:5]:
+            print(f"HARNESS-ERROR property={pid} {x['label']}: {x['detail']}")
+        if again:
+            if stored.get("key") in known:
+                print(f"KNOWN-FINDING: property={pid} {stored['key']} — {known[stored['key']].get('what', '')}")
+                print(f"{pid} [replay] reproduced=yes (known finding) exit=0")
+                sys.exit(EXIT_OK)
+            print(f"VIOLATION property={pid} replay={path}")
+            print(f"  {again[0]['key']}: {json.dumps(again[0]['info'])[:600]}")
+            print(f"{pid} [replay] reproduced=yes exit=1")
+            sys.exit(EXIT_VIOLATION)
+        others = sorted({v["key"] for v in violations})
+        print(f"{pid} [replay] reproduced=no (stored key: {stored.get('key')!r}; other failing obligations of that job now: {others[:5]}) exit={EXIT_HARNESS if herr else EXIT_OK}")
+        sys.exit(EXIT_HARNESS if herr else EXIT_OK)
 
     os.makedirs(os.path.join(VERIF, "evidence", "replay"), exist_ok=True)
     new_violations = []
